@@ -115,3 +115,37 @@ func writerQueueK1(rep *Report, m *model.Client, r *rand.Rand, n int) {
 		}
 	}
 }
+
+// truncateK1: checkTruncate (how far a commit may cut a bounded file) vs. Model/Truncate.v on random and boundary
+// arguments, with the theorem's statement as an oracle: a truncation never cuts below what the previous commit
+// (the fall-back header) or the new commit needs.
+func truncateK1(rep *Report, m *model.Client, r *rand.Rand, n int) {
+	for i := 0; i < n; i++ {
+		ps := []uint{1024, 4096}[r.Intn(2)]
+		pages := func() int64 { return int64(r.Intn(200)) }
+		lastData, lastMeta := uint64(pages()), uint64(pages())
+		maxSz := []int64{0, 0, pages() * int64(ps), 50 * int64(ps), 64 * int64(ps)}[r.Intn(5)]
+		mmapSz := pages() * int64(ps)
+		sz := pages() * int64(ps)
+		if r.Intn(3) == 0 {
+			sz = mmapSz + int64(r.Intn(3)-1)*int64(ps)
+		}
+		e, tr := txfile.VerifCheckTruncate(lastData, lastMeta, sz, mmapSz, maxSz, ps)
+		lastEnd := lastData
+		if lastMeta > lastEnd {
+			lastEnd = lastMeta
+		}
+		impl := fmt.Sprintf("%d %s", e, b01(tr))
+		mod := m.Ask(fmt.Sprintf("checktruncate %d %d %d %d %d", lastEnd, sz, mmapSz, maxSz, ps))
+		rep.Evaluations++
+		rep.count("truncate-k1:"+b01(tr), 1)
+		replay := map[string]interface{}{"last_data_end": lastData, "last_meta_end": lastMeta, "size": sz, "new_commit_needs": mmapSz, "max_size": maxSz, "page_size": ps}
+		if tr && (e < int64(lastEnd)*int64(ps) || e < mmapSz) {
+			rep.violate(Violation{Kind: "oracle", Sig: "check-truncate/cuts-below-a-commit",
+				Detail: fmt.Sprintf("checkTruncate cuts the file to %d bytes; the previous commit (the fall-back header) needs %d, the new one %d (size %d, limit %d)", e, int64(lastEnd)*int64(ps), mmapSz, sz, maxSz),
+				Replay: replay})
+		} else if impl != mod && (tr || !strings.HasSuffix(mod, " 0")) {
+			rep.violate(Violation{Kind: "correspondence", Sig: "check-truncate", Detail: fmt.Sprintf("checkTruncate: implementation %q, model %q (%v)", impl, mod, replay), Replay: replay})
+		}
+	}
+}
